@@ -43,6 +43,15 @@ pub struct RefRun<'p> {
   pub viol: Option<RefViol>,
   pub steps: u64,
   pub step_bound: u64,
+  /// Lenient mode: hidden-dependency checks are switched off (used to find out what a task would go on to require).
+  pub lenient: bool,
+  /// Collect mode: cycle / overlap / hidden-dependency violations are recorded in `collected` and evaluation goes on
+  /// (a cyclic require is skipped), to find every kind of violation the tasks contain in this state.
+  pub collect: bool,
+  pub collected: Vec<RefViol>,
+  /// Some task read a resource before another task wrote it in this build (legal when the reader requires the writer,
+  /// but then results depend on evaluation order: outside the class for which incremental = from-scratch is claimed).
+  pub order_sensitive: bool,
 }
 
 impl<'p> RefRun<'p> {
@@ -60,6 +69,10 @@ impl<'p> RefRun<'p> {
       viol: None,
       steps: 0,
       step_bound: 200 * (n as u64 + 2) * 16,
+      lenient: false,
+      collect: false,
+      collected: Vec::new(),
+      order_sensitive: false,
     }
   }
 
@@ -104,6 +117,7 @@ impl Env for RefRun<'_> {
     if self.viol.is_some() { return 0; }
     let cur = self.cur();
     if self.stack.contains(&target) {
+      if self.collect { self.collected.push(RefViol::Cycle { task: cur, target }); return 0; }
       self.viol = Some(RefViol::Cycle { task: cur, target });
       return 0;
     }
@@ -116,7 +130,10 @@ impl Env for RefRun<'_> {
     let cur = self.cur();
     if let Some(w) = self.writer_of[res as usize] {
       if w == cur { self.viol = Some(RefViol::SelfAccess { res, task: cur }); return 0; }
-      if !self.reaches(cur, w) { self.viol = Some(RefViol::HiddenRead { res, reader: cur, writer: w }); return 0; }
+      if !self.lenient && !self.reaches(cur, w) {
+        if self.collect { self.collected.push(RefViol::HiddenRead { res, reader: cur, writer: w }); }
+        else { self.viol = Some(RefViol::HiddenRead { res, reader: cur, writer: w }); return 0; }
+      }
     }
     if fail_stamp { return OBS_ERR; }
     if !self.readers_of[res as usize].contains(&cur) { self.readers_of[res as usize].push(cur); }
@@ -127,13 +144,20 @@ impl Env for RefRun<'_> {
     if self.viol.is_some() { return; }
     let cur = self.cur();
     if let Some(w) = self.writer_of[res as usize] {
-      self.viol = Some(if w == cur { RefViol::SelfAccess { res, task: cur } } else { RefViol::Overlap { res, task: cur, prev: w } });
-      return;
+      if w != cur && self.collect { self.collected.push(RefViol::Overlap { res, task: cur, prev: w }); }
+      else {
+        self.viol = Some(if w == cur { RefViol::SelfAccess { res, task: cur } } else { RefViol::Overlap { res, task: cur, prev: w } });
+        return;
+      }
     }
+    if self.readers_of[res as usize].iter().any(|x| *x != cur) { self.order_sensitive = true; }
     for i in 0..self.readers_of[res as usize].len() {
       let x = self.readers_of[res as usize][i];
       if x == cur { self.viol = Some(RefViol::SelfAccess { res, task: cur }); return; }
-      if !self.reaches(x, cur) { self.viol = Some(RefViol::HiddenWrite { res, writer: cur, reader: x }); return; }
+      if !self.lenient && !self.reaches(x, cur) {
+        if self.collect { self.collected.push(RefViol::HiddenWrite { res, writer: cur, reader: x }); }
+        else { self.viol = Some(RefViol::HiddenWrite { res, writer: cur, reader: x }); return; }
+      }
     }
     match fail {
       Fail::ResWrite | Fail::WriteFn => {}
@@ -143,6 +167,7 @@ impl Env for RefRun<'_> {
   }
 
   fn user_panic(&mut self) {
+    if self.collect { let t = self.cur(); self.collected.push(RefViol::UserPanic { task: t }); return; }
     if self.viol.is_none() { self.viol = Some(RefViol::UserPanic { task: self.cur() }); }
   }
 }
